@@ -31,6 +31,8 @@ pub struct C10 {
   pub via: Via,
   pub max_steps: usize,
   pub observers: usize,
+  /// true: only subscribe / unsubscribe / next (deep membership histories with 3 observers)
+  pub membership_only: bool,
 }
 
 enum AnySubject {
@@ -88,7 +90,7 @@ struct RObs {
 
 impl Harness for C10 {
   fn name(&self) -> String {
-    format!("C10/{:?}/{:?}/O{}/L{}", self.kind, self.via, self.observers, self.max_steps)
+    format!("C10/{:?}/{:?}/O{}{}/L{}", self.kind, self.via, self.observers, if self.membership_only { "m" } else { "" }, self.max_steps)
   }
   fn run(&self) -> Verdict {
     let initial = Sym::var("init", -5);
@@ -135,7 +137,7 @@ impl Harness for C10 {
 
     let steps = sym::choose("steps", self.max_steps + 1);
     for i in 0..steps {
-      let k = sym::choose(&format!("h{}.op", i), 5);
+      let k = sym::choose(&format!("h{}.op", i), if self.membership_only { 3 } else { 5 });
       match k {
         0 => {
           // subscribe_j
@@ -321,7 +323,17 @@ pub fn plan(tier: Tier, _seed: u64) -> Plan {
   let steps = if tier == Tier::Quick { 5 } else { 7 };
   for kind in [Sk::Subject, Sk::Behavior, Sk::Replay, Sk::Async] {
     for via in [Via::Direct, Via::Map, Via::Take] {
-      h.push(Arc::new(C10 { kind, via, max_steps: steps, observers: if tier == Tier::Quick { 2 } else { 3 } }));
+      h.push(Arc::new(C10 { kind, via, max_steps: steps, observers: if tier == Tier::Quick { 2 } else { 3 }, membership_only: false }));
+    }
+    // three observers joining and leaving in every order (sliced over the first decisions)
+    for who in 0..3i64 {
+      for op1 in 0..3i64 {
+        let inner: Arc<dyn Harness> = Arc::new(C10 { kind, via: Via::Direct, max_steps: 5, observers: 3, membership_only: true });
+        h.push(Arc::new(crate::explore::Pinned {
+          inner,
+          pins: vec![("steps".to_string(), 5), ("h0.op".to_string(), 0), ("h0.who".to_string(), who), ("h1.op".to_string(), op1)],
+        }));
+      }
     }
   }
   Plan {
@@ -357,7 +369,8 @@ pub fn by_name(name: &str) -> Option<Arc<dyn Harness>> {
   Some(Arc::new(C10 {
     kind,
     via,
-    observers: p[3].trim_start_matches('O').parse().ok()?,
+    observers: p[3].trim_start_matches('O').trim_end_matches('m').parse().ok()?,
+    membership_only: p[3].ends_with('m'),
     max_steps: p[4].trim_start_matches('L').parse().ok()?,
   }))
 }
